@@ -37,7 +37,7 @@ def gen_batch(rng, tier, nreq=None, kinds=None):
                     'm400': rng.choice([18, 20, 23]), 'mhard': 45, 'h1': 45, 'h2': 50},
            'penalties': rng.random() < 0.5, 'offset200': rng.choice([0, 0, 1, -1]),
            'roadm': {'add_drop_osnr': rng.choice([33, 38, 38, 45]), 'pdl': rng.choice([0, 0.5]), 'pmd': rng.choice([0, 3e-12])},
-           'p_design': rng.choice([None, None, 2])}
+           'p_design': rng.choice([None, 2, 2, 3]), 'sat_offset': rng.choice([3, 5, 5])}
     k = nreq or rng.choice([2, 3, 4, 5, 6, 8] if tier == 'quick' else [2, 3, 4, 5, 6, 8, 10])
     reqs = []
     for i in range(k):
@@ -93,8 +93,7 @@ def gen_request(rng, rid, kind, n, earlier):
     elif kind == 'dense':
         r['type'], r['mode'], r['spacing'] = 'Twide', 'w100', 50e9
     elif kind == 'saturating':
-        r['type'], r['mode'], r['spacing'] = 'Twide', 'w100', 50e9
-        r['power'] = rng.choice([1e-2, 2e-2])
+        r['type'], r['mode'], r['spacing'] = 'Twide', 'wsat', 50e9
     return r
 
 
@@ -121,7 +120,8 @@ def library(lib):
         {'type_variety': 'Thard', 'frequency': fr, 'mode': [
             mode('h1', 32e9, 100e9, 37.5e9, o['h1'], 1), mode('h2', 32e9, 200e9, 50e9, o['h2'], 2)]},
         {'type_variety': 'Twide', 'frequency': {'min': 191.35e12, 'max': 195.1e12}, 'mode': [
-            mode('w100', 32e9, 100e9, 37.5e9, o['m100'], 1)]}]
+            mode('w100', 32e9, 100e9, 37.5e9, o['m100'], 1),
+            mode('wsat', 32e9, 100e9, 37.5e9, o['m100'], 1, off=lib.get('sat_offset', 5))]}]
 
 
 def build(case):
